@@ -16,7 +16,8 @@ def conds(tier):
     out.append(Cond("steps", core.mk_steps(P, 2, 3, 2, 2), core.steps_params(2, 3, 2, 2), builds=("C", "P"), pin=3, budget=200,
                     family="F-STEPS(2,3,2)", encodes=core.ENC_SCHED))
     out.append(core.seq_cond("seq", P, 3, 2, builds=("C", "P")))
-    out.append(core.shape_cond("shape", P, [4, 5, 6, 7, 13, 15] if q else list(range(20)), fam.OK_MENU, 3 if q else 4,
+    out.append(core.seq_cond("seq_opts", P, 3, 2, options=("COLLECT_PERF_STATS", "KEEP_DEPENDENCIES")))
+    out.append(core.shape_cond("shape", P, [4, 5, 6, 7, 13, 15, 20, 21] if q else list(range(22)), fam.OK_MENU, 3 if q else 4,
                                budget=200 if q else 900, slim=q))
     out.append(Cond("dag", core.mk_dag(P), core.DAG_PARAMS, builds=("C", "P"), pin=3, budget=120, family="F-DAG",
                     encodes=core.ENC_SCHED))
